@@ -468,9 +468,11 @@ def make_unknown(eng):
     return body
 
 
-def make_topmatter(eng, n, alphabet):
+def make_topmatter(eng, n, alphabet, prefix="", suffix=""):
     cm = M["myst_parser.config.main"]
     text = lift(new_str(eng, "t", n, alphabet=alphabet)) if n else ""
+    if prefix or suffix:
+        text = join("", [prefix, text, suffix])
     eng.witness_fn = lambda m: {"text": eng.eval_model(m, text)}
 
     class _Yaml:
@@ -659,6 +661,8 @@ def families(tier, seed):
     F.append(Family("unknown-keys", make_unknown, "unknown 2-char key / non-dict 'myst' / deprecated top-level keys", nontrivial="accepted"))
     for n in ([5, 7] if q else [7, 9]):
         F.append(Family("topmatter/N%d" % n, make_topmatter, "read_topmatter on all texts of %d chars over '-.a \\n'" % n, args=dict(n=n, alphabet="-.a \n"), nontrivial="accepted"))
+    F.append(Family("topmatter/closers", make_topmatter, "read_topmatter on '---\\na: 1\\n' + 5 chars over '-. \\n' + '\\nb\\n' (closing fences longer than three characters, with trailing blanks)",
+                    args=dict(n=5, alphabet="-. \n", prefix="---\na: 1\n", suffix="\nb\n"), nontrivial="accepted"))
     F.append(Family("optstrings", make_optstrings, "every config field that has a docutils option x 1-4 option-string spellings (comma lists, booleans, ints, YAML dictionaries) through the real OptionParser and create_myst_config: "
                     "same stored value as the constructor given the equivalent Python value", nontrivial="accepted", max_forks=10000))
     return F
